@@ -239,9 +239,9 @@ func toString(env *env, i any) (string, error) {
 		}
 		if i := imag(c); i != 0 {
 			if s != "" && i > 0 {
-				s += " "
+				s += "+"
 			}
-			s = strconv.FormatFloat(i, 'f', -1, 32) + "i"
+			s += strconv.FormatFloat(i, 'f', -1, 32) + "i"
 		}
 		return s, nil
 	case reflect.Complex128:
@@ -257,7 +257,7 @@ func toString(env *env, i any) (string, error) {
 			if s != "" && i > 0 {
 				s += "+"
 			}
-			s = strconv.FormatFloat(i, 'f', -1, 64) + "i"
+			s += strconv.FormatFloat(i, 'f', -1, 64) + "i"
 		}
 		return s, nil
 	default:
